@@ -172,6 +172,7 @@ class GenericElongationGroove(GrooveBase, ReprMixin):
         self._cross_section = Polygon(self._contour_line)
 
         self.test_plausibility()
+        self.test_contour_points()
         self.test_complexity_of_contour_line()
 
     def _r1_contour_line(self, z):
@@ -279,8 +280,30 @@ class GenericElongationGroove(GrooveBase, ReprMixin):
         if (self.flank_angle + self.alpha4 - self.alpha2 - self.alpha3) > 0.01:
             raise ValueError("given angles should fulfill α1 + α4 = α2 + α3 to be geometrically plausible")
 
-        if self.y4 - self._flank_contour_line(self.z4) > 0.001 * self.depth:
+        if abs(self.y4 - self._flank_contour_line(self.z4)) > 0.001 * self.depth + 1e-9 * self.z0:
             raise ValueError("under given conditions a step appears in z4")
+
+    def test_contour_points(self):
+        half = self.contour_points[len(self.contour_points) // 2:]
+        z = half[:, 0]
+        y = half[:, 1]
+        tol = 1e-9 * (self.z0 + self.depth)
+
+        if not np.all(np.isfinite(half)):
+            raise ValueError("given groove arguments create non-finite contour points")
+
+        if not np.all(np.diff(z) > 0):
+            raise ValueError("given groove arguments create a contour line running backwards in z-direction")
+
+        if np.any(y < -tol):
+            raise ValueError("given groove arguments create a contour line falling below the roll face")
+
+        depth = np.max(y[z <= self.z3])  # depth actually reached by the contour between the flanks
+        if (
+                depth > 1.001 * self.depth + tol
+                or depth < (0.999 - 4 / Config.GROOVE_RADIUS_POINT_COUNT ** 2) * self.depth - tol
+        ):
+            raise ValueError("the deepest point of the contour line between the flanks does not equal the given depth")
 
     def test_complexity_of_contour_line(self):
         if not self.contour_line.is_simple:
